@@ -246,6 +246,11 @@ class FullRunner(Runner):
             self.id2idx[a.id] = self.n_assets
         return new
 
+    def canon_asset(self, asset_id):
+        if asset_id not in self.id2idx and asset_id > 0:
+            self._sync_assets()      # an asset registered a moment ago (events created by its initialize)
+        return self.id2idx.get(asset_id, asset_id)
+
     def add_dev(self, obj):
         self.dev_idx[id(obj)] = len(self.devs)
         self.devs.append(obj)
@@ -273,15 +278,15 @@ class FullRunner(Runner):
             return 15
         if n == '_check_pending_requests':
             return 6
-        if id(s) in self.dev_idx:
-            d = self.dev_idx[id(s)]
-            k = {'_finish_cycle': 2, '_pass_part_downstream': 3, '_fail': 4, '_release_resources_if_idle': 5}.get(n)
-            if k is not None:
-                return k + 16 * d
-        if n == '_update_state' and s in self.scheds:
-            return 9 + 16 * self.scheds.index(s)
-        if n == '_periodic_sense' and s in self.sensors:
-            return 10 + 16 * self.sensors.index(s)
+        # an object that is still being constructed (initialised on registration while the
+        # simulation runs) gets the index it is about to receive
+        k = {'_finish_cycle': 2, '_pass_part_downstream': 3, '_fail': 4, '_release_resources_if_idle': 5}.get(n)
+        if k is not None and isinstance(s, PartHandler):
+            return k + 16 * self.dev_idx.get(id(s), len(self.devs))
+        if n == '_update_state' and isinstance(s, ActionScheduler):
+            return 9 + 16 * (self.scheds.index(s) if s in self.scheds else len(self.scheds))
+        if n == '_periodic_sense' and isinstance(s, PeriodicSensor):
+            return 10 + 16 * (self.sensors.index(s) if s in self.sensors else len(self.sensors))
         return 15
 
     def real_asset(self, a):
@@ -589,6 +594,10 @@ class FullRunner(Runner):
             return 'ok'
         if op == 'addsensor':
             self.cmss[int(toks[1])].add_sensor(self.sensors[int(toks[2])])
+            return 'ok'
+        if op == 'create':
+            self.make_asset(toks[1:])
+            self._sync_assets()
             return 'ok'
         return super().do_op_ext(toks)
 
